@@ -558,10 +558,13 @@ theorem C29_fact_main_fn :
     `C29_readFault_no_change`. -/
 theorem C29_fact_load_meta : Thanos.Facts.loadMetaDecode = ["io.ReadAll", "json.Unmarshal"] := by decide
 
-/-- Known finding (object store that lies): if the only block holding a sample is deleted without
-    having been marked — which is what the partial-upload cleaner does to a 72 h old complete block
-    whose meta.json the store transiently reports as "not found" — the cover is gone.  No action of
-    the model does this; the real code does under that fault (class `sample-lost-after-notfound-lie`). -/
+/-- What happens under a fault OUTSIDE the property's quantifier (recorded, not claimed): C29 ranges
+    over block sets and crash points of the bucket operation sequence; the object store is trusted
+    to be consistent (DESIGN §5).  If a store transiently answers "not found" for the meta.json of a
+    complete 72 h old block, the fetcher takes the block for an aborted upload and the partial-upload
+    cleaner deletes it although it was never marked — and once the only block holding a sample is
+    deleted unmarked, the cover is gone.  No action of the model does this.  The harness generates
+    the fault (read-fault mode `n`) and counts the outcome as an observation. -/
 theorem C29_unmarked_delete_breaks_cover :
     let s : State := { now := 0, blocks := [{ id := 1, level := 1, sources := [1], mark := none }], gws := [], nextId := 2 }
     (∃ b ∈ s.blocks, 1 ∈ b.sources) ∧ ¬ (∃ b ∈ (s.blocks.filter (fun c => c.id != 1)), 1 ∈ b.sources) := by decide
